@@ -328,17 +328,34 @@ def task(args):
     return p
 
 
+def strace_task(args):
+    """Completeness of the interposer: every mutating syscall of an uninterrupted (delete + copy) attempt must be a point."""
+    from ..core import crashfs_strace
+    from ..core.runner import HarnessError
+    p = Partial()
+    status, detail = crashfs_strace.check(*args)
+    p.count(f"interposer_strace_check_{status}")
+    if status == "mismatch":
+        raise HarnessError(f"interposer incomplete for {args}: {detail}")
+    return p
+
+
 def run(run):
     depth = 2 if run.tier == "quick" else 3
     cap_states = 400 if run.tier == "quick" else 4000
     specs = scenarios(run.tier, run.seed)
     run.pmap(task, [([s], depth, cap_states) for s in specs])
+    combos = [("raw", "folder", "incomplete", False)] if run.tier == "quick" else \
+        [(f, fn, "incomplete", rev) for f in ("raw", "zip", "zips") for fn in ("folder", "image_folder") for rev in (False, True)]
+    run.pmap(strace_task, combos, nproc=4)
     run.exhaustive = run.counters.get("state_cap_hit", 0) == 0
     run.extra.update(bounds=dict(crash_depth=depth, scenarios=len(specs), distinct_state_cap_per_scenario=cap_states,
                                  transfer_chunk_bytes=crashfs.CHUNK),
                      crash_points_taken=run.counters.get("crash_points_taken", 0),
                      distinct_crash_states=run.counters.get("distinct_crash_states", 0))
     run.assumptions += [
+        "interposer completeness: one delete+copy attempt per fixture runs under strace -f and every mutating syscall must "
+        "match an interposer point (counter interposer_strace_check_ok; 'skipped' where strace cannot attach)",
         "a crash is process death (os._exit): no fsync / power-loss reasoning; trees are compared by names, kinds and bytes",
         "metadata-only operations (chmod, utime) are not crash points",
         "num_workers >= 2 (joblib child processes) is not interposed and not explored",
